@@ -14,7 +14,9 @@ RULE = ("generate -> execute -> validate. Polygons come from two TLC-generated p
         "triangle inside (centroid x3 + no polygon edge meets the open triangle), areas add up; unconstrained triangles tile the "
         "hull; monotone pieces: chains meet, vertices only, x-monotone, signed areas add up, witness membership, point location "
         "= Pos(P, c) # E; stitched result: same witnesses, same area, ring directions. distinct_nontrivial = distinct events with "
-        ">= 2 triangles / pieces.")
+        ">= 2 triangles / pieces. A third family is drawn at random by the harness (star-shaped shells with notches, 0 - 2 holes moved so "
+        "that they touch the shell or each other); whether such a candidate is a valid polygon is decided by the validator "
+        "(ValidExact.tla, exact and conservative) - invalid candidates are skipped and counted, never judged.")
 ASSUME = ["monotone pieces (diagonals of arbitrary slope) are judged by necessary conditions (exact area + witness membership), triangles by an exact tiling criterion",
           "scale-down maps are excluded: the Delaunay routines snap points closer than the documented snap radius",
           "exact maps are computed without rounding, so corners mapped back must be integers exactly"]
@@ -85,6 +87,7 @@ def check(tier, seed, t0):
     cov = {"states": sum(r["distinct"] for r in runs), "transitions": sum(r["generated"] for r in runs),
            "traces_validated_against_impl": n, "samples": samples, "evaluations": n, "distinct_nontrivial": len(nontriv),
            "rule": RULE, "pool_sizes": {"octilinear": npool, "general": ngen}, "recorded_event_kinds": evk,
+           "events_outside_the_domain_skipped": sum(r.get("skipped", 0) for r in results),
            "checks_passed_by_kind": {"events_accepted": n - len(mism)}, "checks_failed_by_kind": failc, "tlc_runs": vf.tlc_summary(runs)}
     vf.finish("C10", tier, seed, "model_checking", cov, ASSUME, t0, mism)
 
